@@ -152,6 +152,7 @@ static void small_case(uint64_t idx, void *ctx)
 int main(int argc, char **argv)
 {
     mc_init("C18", argc, argv);
+    libast_debug_level = (unsigned) mc_dlevel();        /* --dlevel=N: the whole run at runtime debug level N (default 0) */
     MAXLEN = (int) mc_arg_int("maxlen", mc_thorough() ? 100 : 40);
     if (MAXLEN > 400) MAXLEN = 400;
     g_page = sysconf(_SC_PAGESIZE);
